@@ -20,6 +20,21 @@ def sh(cmd, cwd=None, env=None, timeout=3600):
     return p.returncode, (p.stdout + p.stderr)
 
 
+import contextlib
+import fcntl
+
+
+@contextlib.contextmanager
+def locked(path):
+    """serialise read-modify-write of a results file between concurrent runs"""
+    with open(str(path) + ".lock", "w") as fh:
+        fcntl.flock(fh, fcntl.LOCK_EX)
+        try:
+            yield
+        finally:
+            fcntl.flock(fh, fcntl.LOCK_UN)
+
+
 def scratch(name):
     d = Path("/tmp/mutwt") / name
     if d.exists():
@@ -95,9 +110,10 @@ def do_run(ids, tier="quick", all_checks=False):
             results[sid] = res
             print(sid, json.dumps(res))
             # keep the last observed outcome next to the seeded change
-            allres = json.loads((SEEDED / "results.json").read_text()) if (SEEDED / "results.json").exists() else {}
-            allres.setdefault(sid, {}).update({p: ("caught: " + r["violation"].split(" replay=")[0] + (" (no-failing-input-found)" if "no-failing-input" in r["violation"] else "")) if r["rc"] == 1 else ("exit 2" if r["rc"] == 2 else "not caught") for p, r in res.items()})
-            (SEEDED / "results.json").write_text(json.dumps(allres, indent=1, sort_keys=True) + "\n")
+            with locked(SEEDED / "results.json"):
+                allres = json.loads((SEEDED / "results.json").read_text()) if (SEEDED / "results.json").exists() else {}
+                allres.setdefault(sid, {}).update({p: ("caught: " + r["violation"].split(" replay=")[0] + (" (no-failing-input-found)" if "no-failing-input" in r["violation"] else "")) if r["rc"] == 1 else ("exit 2" if r["rc"] == 2 else "not caught") for p, r in res.items()})
+                (SEEDED / "results.json").write_text(json.dumps(allres, indent=1, sort_keys=True) + "\n")
         finally:
             drop(wt)
     return results
@@ -152,9 +168,11 @@ def run_harmless(ids, tier="quick"):
                 rc, out = sh(f"./check {p} {tier}", cwd=VERIF, env=env, timeout=7200)
                 if rc != 0:
                     alarms[p] = next((l for l in out.splitlines() if l.startswith("VIOLATION") or "INFRA" in l), f"rc={rc}")
-            allres[sid] = alarms or "silent (all checks exit 0)"
-            print(sid, json.dumps(allres[sid]))
-            (HARMLESS / "results.json").write_text(json.dumps(allres, indent=1, sort_keys=True) + "\n")
+            with locked(HARMLESS / "results.json"):
+                allres = json.loads((HARMLESS / "results.json").read_text()) if (HARMLESS / "results.json").exists() else {}
+                allres[sid] = alarms or "silent (all checks exit 0)"
+                print(sid, json.dumps(allres[sid]))
+                (HARMLESS / "results.json").write_text(json.dumps(allres, indent=1, sort_keys=True) + "\n")
         finally:
             drop(wt)
 
